@@ -15,7 +15,8 @@ RULE = ("Enumerated: the full cross product of flag bits, max-segments code 0..7
         "Non-trivial: a header with a flag set or a segmented layout, a table argument that is not itself a table "
         "entry, an octet string the reference classifies differently from its first-octet type alone (decodable "
         "with >= 3 header octets, or rejected as truncated). Distinct by octets / argument."
-        " Also: every header built through the typed class's constructor arguments, positionally and by keyword.")
+        " Also: every header built through the typed class's constructor arguments, positionally and by keyword."
+        " One reduced copy of a generated shard runs with the library's debug tracing switched on (label tracing-on).")
 ASSUMPTIONS = [
     "reference codec bpverif/ref/apci.py transcribes clause 20.1.2-20.1.9 correctly",
     "reserved bits of received headers are ignored by both sides (bit 7 of the max-segments octet, low bits of types without flags)",
